@@ -20,6 +20,8 @@
 #include "async_stdout_sink.h"
 
 #include <unistd.h>
+#include <poll.h>
+#include <cerrno>
 
 namespace tbox {
 namespace log {
@@ -42,8 +44,30 @@ void AsyncStdoutSink::endline()
 
 void AsyncStdoutSink::flush()
 {
-    auto wsize = ::write(STDOUT_FILENO, cache_.data(), cache_.size()); //! 写到终端
-    (void)wsize;  //! 消除警告用
+    //! write() may accept fewer bytes than asked or be interrupted: go on with the rest
+    size_t done_size = 0;
+    while (done_size < cache_.size()) {
+        auto wsize = ::write(STDOUT_FILENO, cache_.data() + done_size, cache_.size() - done_size); //! 写到终端
+        if (wsize > 0) {
+            done_size += wsize;
+            continue;
+        }
+
+        if (wsize < 0 && errno == EINTR)
+            continue;
+
+        //! stdout is a non-blocking descriptor and it is full: wait until it can take more
+        if (wsize < 0 && (errno == EAGAIN || errno == EWOULDBLOCK)) {
+            struct pollfd pfd;
+            pfd.fd = STDOUT_FILENO;
+            pfd.events = POLLOUT;
+            pfd.revents = 0;
+            ::poll(&pfd, 1, -1);
+            continue;
+        }
+
+        break;  //! stdout is gone, the rest of this batch can not be delivered
+    }
 
     cache_.clear();
 }
